@@ -156,6 +156,21 @@ def run(ck):
     fn = ck.path("ops_broker.txt")
     model = ck.lean_run("C11", fn)
     _judge(ck, "broker", ops, meta, impl, model)
+    # ---------------- broker, concurrent: one shared handler, GOMAXPROCS goroutines, same API key at mixed versions
+    cseed, cms = ck.rng.next() % (1 << 62), (1500 if ck.quick() else 10000)
+    rc, out, err = ck.run_bin(bins["b"], args=["conc", str(cseed), str(cms)], env={"VERIF_HARNESS": "C11"}, timeout=180)
+    line = (out.strip().split("\n") or [""])[-1]
+    ck.count("broker-conc:" + " ".join(line.split()[:2]))
+    if line.startswith("conc ok"):
+        ck.cov["evaluations"] += int(line.split("requests=")[1].split()[0])
+        ck.case(("conc", cseed), sample={"op": "conc %d %d" % (cseed, cms), "impl": line})
+    elif line.startswith("conc mismatch"):
+        ck.violation("concurrent-request-disturbed",
+                     "with other connections sending the same API key at other versions through the same handler, a valid request was not "
+                     "answered decodably at its own version (%s)" % line[14:],
+                     {"ops": ["conc %d %d" % (cseed, cms)], "who": "broker-conc", "actual": line})
+    else:
+        ck.violation("handler-panic", "the concurrent broker scenario died: " + (err[-300:] or line), {"ops": ["conc %d %d" % (cseed, cms)], "who": "broker-conc", "actual": line})
     # ---------------- proxy
     pops, pmeta = [], []
     for mode in ("notready", "nobackend"):
@@ -244,6 +259,18 @@ def replay(ck, path):
         return
     who = rep.get("who", "broker")
     ops = rep["ops"]
+    if who == "broker-conc":
+        _, seed, ms = ops[0].split()
+        for attempt in range(3):
+            rc, out, err = ck.run_bin(st["bins"]["b"], args=["conc", str(int(seed) + attempt), str(max(3000, int(ms)))], env={"VERIF_HARNESS": "C11"}, timeout=180)
+            line = (out.strip().split("\n") or [""])[-1]
+            print("  conc ->", line)
+            ck.case(("conc", seed, attempt), sample={"op": ops[0], "impl": line})
+            if not line.startswith("conc ok"):
+                ck.violation(rep.get("fingerprint", "concurrent-request-disturbed"), rep.get("what", line), {"ops": ops, "who": who, "actual": line})
+                break
+        ck.cov["distinct_nontrivial"] = max(ck.cov["distinct_nontrivial"], 2)
+        return
     impl = _run_impl(ck, st["bins"]["b" if who == "broker" else "p"], {"VERIF_HARNESS": "C11" if who == "broker" else "C11P"}, ops, "replay")
     for op, o in zip(ops, impl):
         print("  %s -> %s" % (op, o))
